@@ -12,7 +12,7 @@ from . import geom, ibmrun
 
 RULE = ("random simple polygons (star-shaped 3..12 vertices, comb/L-shaped non-convex, both orientations, non-symmetric), "
         "1..4 pairwise disjoint polygons, list / multi-polygon / metric-offset / GeoJSON (Polygon and MultiPolygon features with "
-        "heterogeneous property tables) / point forms, centres at latitudes -89..89, num in 0..40; draws recorded with u=0 and "
+        "heterogeneous property tables) / point forms, centres at latitudes -89..89 and any longitude incl. on / next to the antimeridian, num in 0..40; draws recorded with u=0 and "
         "1-2^-53 injected. Non-trivial: num >= 1.")
 ASSUMPTIONS = ["the external `triangle` library's triangulation is validated per case (vertices, exact area sum), not proved to cover the polygon",
                "positions within 1e-11 (relative) outside an edge are counted as on the edge (floating-point evaluation of the convex combination)"]
@@ -23,7 +23,7 @@ def gen_polys(rng, k=None, clon=None, clat=None, r=None):
     k = k or rng.randrange(1, 5)
     clon = rng.uniform(-20, 30) if clon is None else clon
     clat = rng.uniform(-60, 70) if clat is None else clat
-    r = r or rng.choice([0.01, 0.5, 2.0])
+    r = r or rng.choice([0.01, 0.5, 2.0, 2e-4])
     polys = []
     for i in range(k):
         polys.append(geom.random_polygon(rng, clon + 3.0 * r * i, clat + 0.37 * r * i, r))
@@ -113,7 +113,8 @@ def run(ctx):
             check_positions(ctx, drv, pend, mk, polys, out["latitude"], out["longitude"], None, None, cs, "get_location")
             continue
         if form == "offset":
-            clon = ctx.rng.uniform(-170, 170); clat = ctx.rng.choice([-89.0, -60.0, 0.0, 45.0, 70.0, 89.0, ctx.rng.uniform(-89, 89)])
+            # centres anywhere, including next to / on the antimeridian and the prime meridian
+            clon = ctx.rng.choice([ctx.rng.uniform(-170, 170), ctx.rng.uniform(-170, 170), 179.9, -179.95, 180.0, -180.0, 0.0, 179.9999]); clat = ctx.rng.choice([-89.0, -60.0, 0.0, 45.0, 70.0, 89.0, ctx.rng.uniform(-89, 89)])
             off = geom.random_polygon(ctx.rng, ctx.rng.uniform(-200, 200), ctx.rng.uniform(-200, 200), ctx.rng.choice([50.0, 500.0, 5000.0]))
             spec = dict(center=[clon, clat], offset=[[p[0] for p in off], [p[1] for p in off]])
             with RngRecorder(ctx.sub_seed()):
